@@ -70,6 +70,7 @@ static void po_truth(FILE *out, int dfd, const char *path, int nofollow) {
 static int pathops(const char *script, const char *outp) {
   FILE *in = fopen(script, "r"), *out = fopen(outp, "w");
   if (!in || !out) return 97;
+  fprintf(out, "pid %d\n", (int)getpid());
   static char line[16384]; static char strs[8][8192]; static unsigned long how[4];
   while (fgets(line, sizeof line, in)) {
     char *tok[16]; int nt = 0; line[strcspn(line, "\n")] = 0;
